@@ -1027,7 +1027,12 @@ func (s *runsInnerStream[T]) Next(ctx context.Context) (T, error) {
 	} else if !s.parent.same(s.prev, item) {
 		return zero, End
 	}
-	return s.parent.inner.Next(ctx)
+	next, err := s.parent.inner.Next(ctx)
+	if err == nil {
+		// The run goes on for as long as each item is the same as the one before it.
+		s.prev = next
+	}
+	return next, err
 }
 
 func (s *runsInnerStream[T]) Close() { s.parent = nil }
